@@ -2,7 +2,8 @@ import TallyVerif.Driver.Util
 import TallyVerif.Model.Csv
 /-! Driver ops of the `Csv` component (property C05).
 
-* `csv`    — `Csv.parseFile` on tokenised rows with the recorded `float()` / `strptime` results
+* `csv`    — `Csv.parseFile` on tokenised rows with the recorded `float()` / `strptime` results;
+             with a `text` key: `Csv.iterRows` (tokenisation of the file text); with a `write` key: `Csv.writeCsv`
 * `amount` — `Csv.cleanAmount` / `Csv.parseAmountExact` of one cell, or `Csv.render` of one number
 * `spaces` — the code points `Csv.isPySpace` accepts (compared with `str.isspace`)
 -/
@@ -55,7 +56,38 @@ def csvTxnToJson (t : Txn) : Json :=
          | none => .null
          | some kv => .arr (kv.map fun (k, v) => .arr #[str k, str v]).toArray)]
 
+private def rowsJson (rows : List (List Str)) : Json :=
+  .arr (rows.map fun r => Json.arr (r.map str).toArray).toArray
+
+/-- `csv` op with a `text` key: `Csv.iterRows` on the decoded file text.  `matches` = what `pattern.match` returned for
+each stripped line (`[[line, [groups…] | null], …]`); a line the model asks about that is not listed is a `miss`. -/
+def handleTokenise (j : Json) : Json :=
+  let text := (jstr j "text").toList
+  let dl := delimOf (optStr j "delimiter")
+  let tbl : List (String × Option (List Str)) := (jarr j "matches").map fun p =>
+    match p with
+    | .arr #[.str a, .arr g] => (a, some (g.toList.map fun x => (asStr x).toList))
+    | .arr #[.str a, _] => (a, none)
+    | _ => ("", none)
+  let m : Str → Option (List Str) := fun s => (tbl.lookup (String.ofList s)).join
+  let asked : List Str := match dl with
+    | .regex => (splitLines text).map strip |>.filter (fun s => !s.isEmpty)
+    | .csv _ => []
+  let misses := asked.filter fun s => (tbl.lookup (String.ofList s)).isNone
+  obj [("rows", rowsJson (iterRows m dl (jbool j "has_header") text)),
+       ("kind", .str (match dl with | .regex => "regex" | .csv d => String.singleton d)),
+       ("misses", .arr (misses.map str).toArray)]
+
+/-- `csv` op with a `write` key: `Csv.writeCsv` (what `csv.writer` puts in the file) and `Csv.readCsv` of it -/
+def handleWrite (j : Json) : Json :=
+  let d : Char := ((jstr j "d").toList.head?).getD ','
+  let rows : List (List Str) := (jarr j "write").map fun r => (asStrList r).map String.toList
+  let text := writeCsv d rows
+  obj [("text", str text), ("read_back", rowsJson (readCsv d text))]
+
 def handleCsv (j : Json) : Json :=
+  if (j.getObjVal? "text").isOk then handleTokenise j else
+  if (j.getObjVal? "write").isOk then handleWrite j else
   let spec := csvSpecOfJson (jget j "spec")
   let c := jget j "cfg"
   let cfg : Cfg := { spec := spec, eu := jbool c "eu", sourceName := (jstr c "source").toList,
